@@ -330,9 +330,14 @@ func (en *DefaultEngine) runFirst(ctx context.Context) (bool, error) {
 	en.ca.Push()
 	rs := resource.NewMenuResource()
 	rs.AddLocalFunc("_first", en.first)
+	idx := en.st.SizeIdx
 	en.st.Down("_first")
 	defer en.ca.Pop()
-	defer en.st.Up()
+	defer func() {
+		en.st.Up()
+		// the pre-VM level is entered and left from wherever the session is: keep its page index
+		en.st.SizeIdx = idx
+	}()
 	defer en.st.ResetFlag(state.FLAG_TERMINATE)
 	defer en.st.ResetFlag(state.FLAG_DIRTY)
 	pvm := vm.NewVm(en.st, rs, en.ca, nil)
